@@ -3,12 +3,12 @@
 Written from docs/tutorial/rewriter/*.md and the docstrings of the pattern classes; it never imports
 onnxscript.  It works on two plain-data structures produced by c06_gen:
 
-pattern  {"nodes": {id: {"op", "ins": [VP], "attrs": {name: ["c", v] | ["v", var, can_none]},
+pattern  {"nodes": {id: {"op", "dom": None|domain, "ins": [VP], "attrs": {name: ["c", v] | ["v", var, can_none]},
                          "oa": None|False, "oi": None|True, "outs": [name|None, ...]}},
           "outs": [["o", id, idx], ...], "inputs": [var names], "commute": bool}
    VP = None (absent input) | ["x", name, can_none] | ["k", value] | ["any"] | ["o", id, idx]
         | ["or", [VP, ...], name|None, tag_var|None, tag_values|None]
-host     FlatHost: .nodes = [(name, op, ins [vid|None], attrs {name: value}, outs [vid])] in graph order,
+host     FlatHost: .nodes = [(name, op, ins [vid|None], attrs {name: value}, outs [vid], domain)] in graph order,
          .consts {vid: float | [ints]}, .gouts {vid}, .uses {vid: [node index]}, .prod {vid: (node index, out index)}
 
 sols(p, h, root, swaps) enumerates ALL instances (every OR alternative, every graph node as candidate for a
@@ -19,7 +19,9 @@ documentation and a plausible reading differ:
     NodePattern docstring says the list only names outputs),
   * the host node has extra inputs that are all empty and the pattern does not allow other inputs
     (allow_other_inputs.md says "exactly the specified inputs"; ONNX says trailing empty inputs are omitted inputs),
-  * ANY_VALUE against an absent input ("matches against any value": is an absent input a value?).
+  * ANY_VALUE against an absent input ("matches against any value": is an absent input a value?),
+  * two node-patterns denote the same host node (the documentation does not say whether an instance must be
+    injective on nodes).
 """
 from __future__ import annotations
 
@@ -50,8 +52,10 @@ def _bind(bind, name, val):
 
 
 class _M:
-    def __init__(self, pat, host, swaps):
-        self.p, self.h, self.swaps = pat, host, swaps
+    def __init__(self, pat, host, swaps, first=False):
+        # first=True is NOT the specification: it is the "first successful alternative is final" reading of
+        # an OR, used only to label a disagreement (finding key), never to decide one.
+        self.p, self.h, self.swaps, self.first = pat, host, swaps, first
 
     # env = (bind, nmap, maybe)
     def value(self, vp, v, env):
@@ -90,6 +94,8 @@ class _M:
                         b = _bind(b, name, v)
                     if b is not None:
                         yield (b, nm, mb)
+                    if self.first:
+                        return
         else:
             raise AssertionError(vp)
 
@@ -100,8 +106,8 @@ class _M:
                 yield env
             return
         pn = self.p["nodes"][pid]
-        _, op, hins, hattrs, houts = self.h.nodes[n]
-        if op != pn["op"]:
+        _, op, hins, hattrs, houts, dom = self.h.nodes[n]
+        if op != pn["op"] or dom != (pn.get("dom") or ""):   # operator and domain agree
             return
         for name, ap in pn["attrs"].items():
             has = name in hattrs
@@ -144,6 +150,8 @@ class _M:
             envs = [e2 for e in envs for e2 in self.value(vp, v, e)]
             if not envs:
                 return
+            if self.first:
+                envs = envs[:1]
         yield from envs
 
 
@@ -159,12 +167,12 @@ def removable(host, nodes, outs):
     return True
 
 
-def sols(pat, host, root, swaps=None):
+def sols(pat, host, root, swaps=None, first=False):
     """All instances of ``pat`` whose first output is computed by host node ``root``.
 
     -> list of (bindings dict, frozenset(node indices), [output vids], maybe)
     """
-    m = _M(pat, host, swaps or {})
+    m = _M(pat, host, swaps or {}, first)
     outs = pat["outs"]
     envs = list(m.node(outs[0][1], root, ({}, {}, False)))
     for o in outs[1:]:
@@ -183,6 +191,7 @@ def sols(pat, host, root, swaps=None):
             b.setdefault(name, None)
         ovals = [host.nodes[nmap[o[1]]][4][o[2]] for o in outs]
         nodes = frozenset(nmap.values())
+        maybe = maybe or len(nodes) < len(nmap)
         key = (tuple(sorted((k, repr(v)) for k, v in b.items())), nodes, tuple(ovals), maybe)
         if key not in seen:
             seen.add(key)
@@ -192,5 +201,5 @@ def sols(pat, host, root, swaps=None):
 
 def swap_space(pat):
     """Every assignment operand-order -> {kept, reversed} for the commutative node-patterns."""
-    ids = [i for i in sorted(pat["nodes"]) if pat["nodes"][i]["op"] in COMMUTATIVE]
+    ids = [i for i in sorted(pat["nodes"]) if pat["nodes"][i]["op"] in COMMUTATIVE and not pat["nodes"][i].get("dom")]
     return [dict(zip(ids, bits)) for bits in itertools.product([False, True], repeat=len(ids))]
